@@ -212,4 +212,5 @@ func runC06(c *Ctx) {
 		runSubScenario(c, 40)
 	}
 	runPubScenarios(c)
+	runSubUnsubscribeRace(c)
 }
